@@ -70,7 +70,7 @@ theorem cellVal_perm (k : FKind) (m m' n : Nat) (o o' : Nat → Option ℝ) (y :
   | gkde => simp only [cellVal, kdeCell, msum_perm m m' o o' _ h]
   | mix K => simp only [cellVal, mixCell, msum_perm m m' o o' _ h]
   | lognorm => simp only [cellVal, lnfCell, msum_perm m m' _ _ _ (logo_perm m m' o o' h)]
-  | lnkde => simp only [cellVal, lnkdeCell, kdeCell, msum_perm m m' _ _ _ (logo_perm m m' o o' h)]
+  | lnkde => simp only [cellVal, lnkdeCell, msum_perm m m' _ _ _ (logo_perm m m' o o' h)]
 
 theorem cellGrad_perm (k : FKind) (m m' n : Nat) (o o' : Nat → Option ℝ) (y : Nat → ℝ) (s : Nat)
     (h : ((List.range m).filterMap o).Perm ((List.range m').filterMap o')) :
